@@ -10,10 +10,14 @@ import Flounder.Spec.Map
 import Flounder.Spec.Position
 import Flounder.Model.Eval
 import Flounder.Model.Go
+import Flounder.Model.MoveGen
+import Flounder.Spec.Chess
+import Flounder.Spec.Geometry
 
 open Flounder Driver
 
 structure St where
+  mg : MoveGenerator
   tt : TT := {}
   ttLog : List Entry := []
   evaluator : Evaluator := {}
@@ -60,6 +64,23 @@ def zobPair (st : St) (a b : String) : St × String :=
     (st, both m (if Spec.samePosition a b then "same" else "differ"))
   | _, _ => (st, modelOnly "bad-op")
 
+def sortedMoves (l : List Move) : String :=
+  " ".intercalate ((l.map mvText).mergeSort (fun a b => decide (a ≤ b)))
+def orderedMoves (l : List Move) : String := " ".intercalate (l.map mvText)
+
+/-- board text of a spec position (counters are not part of a position: taken from the input board). -/
+def posText (p : Spec.Pos) (half full : Nat) : String :=
+  let bbOf (f : Spec.Man → Bool) : Nat :=
+    (List.range 64).foldl (fun acc s => match p.board s with
+      | some m => if f m then acc + 2^s else acc
+      | none => acc) 0
+  let pc (q : Piece) := bbOf (fun m => m.2 == q)
+  let mask := (if p.castle.wk then 1 else 0) + (if p.castle.wq then 2 else 0) +
+              (if p.castle.bk then 4 else 0) + (if p.castle.bq then 8 else 0)
+  let ep := match p.ep with | some s => toString s | none => "-"
+  let side := match p.turn with | .white => "w" | .black => "b"
+  s!"{pc .pawn},{pc .knight},{pc .bishop},{pc .rook},{pc .queen},{pc .king},{bbOf (fun m => m.1 == .white)},{bbOf (fun m => m.1 == .black)},{side},{mask},{ep},{half},{full}"
+
 def step (st : St) (line : String) : St × String :=
   let toks := (line.trimAscii.toString.splitOn " ").filter (· ≠ "")
   match toks with
@@ -74,6 +95,85 @@ def step (st : St) (line : String) : St × String :=
   | ["tt.get", k] =>
     match Driver.parseU64 k with
     | some k => (st, both (entryText (st.tt.retrieve k)) (entryText (Spec.logGet st.ttLog k)))
+    | none => (st, modelOnly "bad-op")
+  -- ---------------------------------------------------------------- C10
+  | ["c10.slide", pc, sq, occ] =>
+    match parsePiece pc, sq.toNat?, Driver.parseU64 occ with
+    | some pc, some sq, some occ =>
+      let bbOf (f : Nat → Bool) : Nat := (List.range 64).foldl (fun acc t => if f t then acc + 2^t else acc) 0
+      let sp := match pc with
+        | .rook => bbOf (Spec.sliderReach false occ sq)
+        | .bishop => bbOf (Spec.sliderReach true occ sq)
+        | _ => bbOf (fun t => Spec.sliderReach false occ sq t || Spec.sliderReach true occ sq t)
+      (st, both (toString (st.mg.lookup.slidingMoves sq occ pc).toNat) (toString sp))
+    | _, _, _ => (st, modelOnly "bad-op")
+  | ["c10.leaper", sq] =>
+    match sq.toNat? with
+    | some sq =>
+      let bbOf (f : Nat → Bool) : Nat := (List.range 64).foldl (fun acc t => if f t then acc + 2^t else acc) 0
+      (st, both s!"{(st.mg.lookup.nonSlidingMoves sq .knight).toNat} {(st.mg.lookup.nonSlidingMoves sq .king).toNat}"
+                s!"{bbOf (Spec.knightStep sq)} {bbOf (Spec.kingStep sq)}")
+    | none => (st, modelOnly "bad-op")
+  | ["c10.between", a, b] =>
+    match a.toNat?, b.toNat? with
+    | some a, some b =>
+      let bbOf (f : Nat → Bool) : Nat := (List.range 64).foldl (fun acc t => if f t then acc + 2^t else acc) 0
+      (st, both s!"{(st.mg.lookup.between a b true).toNat} {(st.mg.lookup.between a b false).toNat}"
+                s!"{bbOf (Spec.onSegment a b)} {bbOf (Spec.onLine a b)}")
+    | _, _ => (st, modelOnly "bad-op")
+  | ["c10.mask", pc, sq] =>   -- relevant-occupancy mask, magic number, relevant bits (model tie of the table build inputs)
+    match parsePiece pc, sq.toNat? with
+    | some pc, some sq =>
+      let bishop := pc == .bishop
+      (st, both s!"{(attackMask bishop sq 0 false).toNat} {(magicOf bishop sq).toNat} {relevantBits bishop sq}" "?")
+    | _, _ => (st, modelOnly "bad-op")
+  -- ---------------------------------------------------------------- C01 / C02 / C17
+  | ["gen", b] =>      -- generated moves in generation ORDER (model tie only)
+    match parseBoard b with
+    | some b => (st, both (orderedMoves (st.mg.generateMoves b)) "?")
+    | none => (st, modelOnly "bad-op")
+  | ["legal", b] =>    -- the SET of generated moves (sorted, duplicates kept) against the rules
+    match parseBoard b with
+    | some b =>
+      let sp := if Spec.valid b then sortedMoves (Spec.legalMoves (Spec.abs b)) else "?"
+      (st, both (sortedMoves (st.mg.generateMoves b)) sp)
+    | none => (st, modelOnly "bad-op")
+  | ["incheck", b] =>
+    match parseBoard b with
+    | some b =>
+      let sp := if Spec.valid b then toString (Spec.inCheck (Spec.abs b)) else "?"
+      (st, both (toString (st.mg.isInCheck b)) sp)
+    | none => (st, modelOnly "bad-op")
+  | ["qmoves", b] =>
+    match parseBoard b with
+    | some b =>
+      let sp := if Spec.valid b then
+          let p := Spec.abs b
+          let ms := Spec.legalMoves p
+          sortedMoves (ms.filter (Spec.tactical p))
+        else "?"
+      (st, both (sortedMoves (st.mg.generateQuiescenceMoves b)) sp)
+    | none => (st, modelOnly "bad-op")
+  | ["qset", b] =>
+    match parseBoard b with
+    | some b =>
+      let sp := if Spec.valid b then
+          let p := Spec.abs b
+          let ms := Spec.legalMoves p
+          sortedMoves (if Spec.inCheck p then ms else ms.filter (Spec.tactical p))
+        else "?"
+      (st, both (sortedMoves (st.mg.quiescenceMoveSet b)) sp)
+    | none => (st, modelOnly "bad-op")
+  | ["play", b, m] =>
+    match parseBoard b, parseMv m with
+    | some b, some m =>
+      let mt := match b.makeMove m with | some nb => boardText nb | none => "panic"
+      let sp := if Spec.valid b && Spec.legal (Spec.abs b) m then posText (Spec.play (Spec.abs b) m) b.halfmove b.fullmove else "?"
+      (st, both mt sp)
+    | _, _ => (st, modelOnly "bad-op")
+  | ["valid", b] =>
+    match parseBoard b with
+    | some b => (st, both (toString (Spec.valid b)) (toString (Spec.valid b)))
     | none => (st, modelOnly "bad-op")
   -- ---------------------------------------------------------------- C14
   | ["eval", b] =>
@@ -138,5 +238,5 @@ partial def loop (h : IO.FS.Stream) (out : IO.FS.Stream) (st : St) : IO Unit := 
 def main : IO Unit := do
   let stdin ← IO.getStdin
   let stdout ← IO.getStdout
-  loop stdin stdout {}
+  loop stdin stdout { mg := MoveGenerator.new }
   stdout.flush
